@@ -1,5 +1,6 @@
-(* Proofs/Parse.v — proofs about the Session.Parse model (Model/Parse.v): totality outside the
-   recorded ARP class, the refutation witnesses of C01, and the slice facts later files use. *)
+(* Proofs/Parse.v — proofs about the Session.Parse model (Model/Parse.v, the code after the repairs of
+   layer_frame.go:240 and of the short tagged header): totality for every slice, the former refutation
+   witnesses as regression examples, and the slice facts later files use. *)
 From PV Require Import Base.Prelude Base.Slice Model.Parse Spec.RFC Model.ParseKnown.
 Open Scope N_scope.
 Open Scope res_scope.
@@ -87,66 +88,26 @@ Proof.
   destruct l as [|x xs]; [destruct i; reflexivity|]. cbn [skipn Nat.add nth]. apply IH.
 Qed.
 
-Definition arp_ok (s : slice) : Prop :=
-  (18 <= len s - 14)%nat \/ ((5 <= len s - 14)%nat /\ nth 18 (arr s) 0 <> 6).
-
 Lemma parse_arp_safe c s f :
-  wf s -> f_offP f = 14%nat -> (14 <= len s)%nat -> arp_ok s -> safe (parse_arp c s f).
+  wf s -> f_offP f = 14%nat -> (14 <= len s)%nat -> safe (parse_arp c s f).
 Proof.
-  intros Hwf H0 H1 Hk. unfold parse_arp.
+  intros Hwf H0 H1. unfold parse_arp.
   rewrite payload_view_pos by (cbn; lia). cbn [bind f_offP set_id]. rewrite H0.
   cbn [len]. unfold bytes_at.
-  destruct (Nat.ltb_spec (len s - 14) 28) as [Hlt|Hge]; cbn [bind].
-  - rewrite idx_ok by (cbn [len]; destruct Hk as [?|[? _]]; lia). cbn [bind arr].
-    rewrite nth_skipn_add. change (14 + 4)%nat with 18%nat.
-    destruct (N.eqb_spec (nth 18 (arr s) 0) 6) as [E|E]; cbn [negb]; [|apply safe_Err].
-    destruct Hk as [Hk|[_ Hk]]; [|congruence].
-    repeat (rd; cbn [bind]). destruct (gate4 _ _ _); cbn [bind]; repeat (rd; cbn [bind]); apply safe_Ok.
-  - repeat (rd; cbn [bind]). destruct (gate4 _ _ _); cbn [bind]; repeat (rd; cbn [bind]); apply safe_Ok.
+  destruct (Nat.ltb_spec (len s - 14) 28) as [Hlt|Hge]; cbn [bind]; [apply safe_Err|].
+  repeat (rd; cbn [bind]).
+  match goal with |- context [if ?c then _ else _] => destruct c end; [apply safe_Err|].
+  repeat (rd; cbn [bind]). destruct (gate4 _ _ _); cbn [bind]; repeat (rd; cbn [bind]); apply safe_Ok.
 Qed.
 
-Lemma known_arp_ok s :
-  wf s -> (14 <= len s)%nat ->
-  is_unicast_mac (view (mkSlice (skipn 6 (arr s)) 6)) = true ->
-  be16 (nth 12 (arr s) 0) (nth 13 (arr s) 0) = 2054 ->
-  k_arp_unsafe (view s) = false -> arp_ok s.
+Theorem parse_no_panic c s : wf s -> safe (parse c s).
 Proof.
-  intros Hwf Hlen Hu Het Hk. unfold arp_ok.
-  unfold k_arp_unsafe, k_arp_trunc in Hk.
-  rewrite (view_length s Hwf) in Hk.
-  unfold word_at, byte_at in Hk.
-  rewrite !view_nth in Hk by lia.
-  change (12 + 1)%nat with 13%nat in Hk. rewrite Het in Hk.
-  assert (Hu' : negb (N.odd (nth 6 (arr s) 0)) = true).
-  { unfold is_unicast_mac, view in Hu. cbn [arr len] in Hu.
-    assert (E : nth 0 (firstn 6 (skipn 6 (arr s))) 0 = nth 6 (arr s) 0).
-    { unfold wf, cap in Hwf. destruct (arr s) as [|a0 [|a1 [|a2 [|a3 [|a4 [|a5 [|a6 r]]]]]]]; cbn in *; try lia; reflexivity. }
-    rewrite E in Hu. clear E.
-    destruct (N.eqb_spec (N.land (nth 6 (arr s) 0) 1) 0) as [E|E]; [|discriminate].
-    change 1 with (N.ones 1) in E. rewrite N.land_ones in E. change (2^1) with 2 in E.
-    rewrite <- N.bit0_mod in E. rewrite N.bit0_odd in E.
-    destruct (N.odd (nth 6 (arr s) 0)); [discriminate|reflexivity]. }
-  rewrite Hu' in Hk.
-  destruct (Nat.lt_ge_cases (len s - 14) 18) as [Hs|Hs]; [|left; lia]. right.
-  destruct (Nat.leb_spec 14 (len s)); [|lia].
-  change (2054 =? 2054) with true in Hk. cbn [andb] in Hk.
-  destruct (Nat.ltb_spec (len s - 14) 28); [|lia]. cbn [andb] in Hk.
-  destruct (Nat.ltb_spec (len s - 14) 18); [|lia]. rewrite Bool.andb_true_r in Hk.
-  apply Bool.orb_false_iff in Hk. destruct Hk as [Ha Hb].
-  destruct (Nat.leb_spec (len s - 14) 4); [discriminate|].
-  split; [lia|]. destruct (Nat.lt_ge_cases 18 (len s)).
-  - rewrite view_nth in Hb by lia. destruct (N.eqb_spec (nth 18 (arr s) 0) 6); [discriminate|assumption].
-  - lia.
-Qed.
-
-Theorem parse_no_panic_partial c s :
-  wf s -> k_arp_unsafe (view s) = false -> safe (parse c s).
-Proof.
-  intros Hwf Hk. unfold parse, ether_is_valid.
+  intros Hwf. unfold parse, ether_is_valid.
   destruct (Nat.leb_spec 14 (len s)) as [Hlen|Hlen]; cbn [bind]; [|apply safe_Err].
   unfold ether_src, ether_dst, ether_header_len, ether_type, bytes_at.
   repeat (rd; cbn [bind]). change (12 + 1)%nat with 13%nat.
   set (et := be16 (nth 12 (arr s) 0) (nth 13 (arr s) 0)) in *.
+  match goal with |- context [if Nat.ltb ?a ?b then _ else _] => destruct (Nat.ltb_spec a b) end; [apply safe_Err|].
   destruct (is_unicast_mac _) eqn:Hu; cbn [negb]; [|apply safe_Ok].
   destruct (et <? 1536); [apply safe_Ok|].
   destruct (N.eqb_spec et 2048) as [E1|E1].
@@ -154,7 +115,7 @@ Proof.
   destruct (N.eqb_spec et 34525) as [E2|E2].
   { apply parse_ip6_safe; auto. }
   destruct (N.eqb_spec et 2054) as [E3|E3].
-  { apply parse_arp_safe; auto. apply known_arp_ok; auto. }
+  { apply parse_arp_safe; auto. }
   repeat match goal with |- context [if ?c then _ else _] => destruct c end;
     try apply safe_Ok; apply parse_leaf_safe; auto.
 Qed.
@@ -166,69 +127,34 @@ Definition w_arp19 : bytes := (repeat 0 12 ++ [8;6] ++ [0;1;8;0;6])%list.
 (* 14-byte ARP frame: arp[4] on an empty body *)
 Definition w_arp14 : bytes := (repeat 0 12 ++ [8;6])%list.
 
-Lemma parse_no_panic_refuted :
-  exists c s, wf s /\ bytes_ok (arr s) /\ parse c s = Panic.
-Proof.
-  exists cfg0, (of_bytes w_arp19). split; [|split].
-  - vm_compute. lia.
-  - apply bytes_okb_spec. vm_compute. reflexivity.
-  - vm_compute. reflexivity.
-Qed.
-
-Lemma parse_no_panic_refuted_14 :
-  exists c s, wf s /\ bytes_ok (arr s) /\ parse c s = Panic.
-Proof.
-  exists cfg0, (of_bytes w_arp14). split; [|split].
-  - vm_compute. lia.
-  - apply bytes_okb_spec. vm_compute. reflexivity.
-  - vm_compute. reflexivity.
-Qed.
-
-(* the witnesses lie in the recorded class, a well-formed ARP request does not *)
-Example w_arp19_known : k_arp_unsafe w_arp19 = true.
+(* the inputs that refuted the property before the repair now return an error *)
+Example parse_arp19_fixed : parse cfg0 (of_bytes w_arp19) = Err EParseFrame.
+Proof. vm_compute. reflexivity. Qed.
+Example parse_arp14_fixed : parse cfg0 (of_bytes w_arp14) = Err EParseFrame.
 Proof. vm_compute. reflexivity. Qed.
 
 Definition ex_arp28 : bytes :=
   ([255;255;255;255;255;255; 2;17;17;17;17;17; 8;6] ++
   [0;1;8;0;6;4;0;1; 2;17;17;17;17;17; 192;168;0;7; 0;0;0;0;0;0; 192;168;0;1])%list.
 Example parse_no_panic_nonvacuous :
-  wf (of_bytes ex_arp28) /\ k_arp_unsafe (view (of_bytes ex_arp28)) = false /\
+  wf (of_bytes ex_arp28) /\
   exists f, parse cfg0 (of_bytes ex_arp28) = Ok f /\ f_id f = PayloadARP /\
             f_host f = Some ([2;17;17;17;17;17], [192;168;0;7]).
 Proof.
-  split; [vm_compute; lia|]. split; [vm_compute; reflexivity|].
+  split; [vm_compute; lia|].
   eexists. split; [vm_compute; reflexivity|]. split; reflexivity.
 Qed.
 
-(* spare capacity changes the result: 31-byte ARP frame (17-byte body, hlen 6) whose sender
-   address 192.168.0.x is completed by the first spare byte *)
+(* 31-byte ARP frame (17-byte body, hlen 6): before the repair the sender address was completed from the
+   spare capacity; now an error whatever the capacity *)
 Definition w_arp31 : bytes :=
   ([255;255;255;255;255;255; 2;17;17;17;17;17; 8;6] ++
   [0;1;8;0;6;4;0;1; 2;34;34;34;34;34; 192;168;0])%list.
-Lemma parse_len_only_refuted :
-  exists c s s', wf s /\ wf s' /\ len s = len s' /\ view s = view s' /\ parse c s <> parse c s'.
-Proof.
-  exists cfg0, (of_bytes_cap w_arp31 [1]), (of_bytes_cap w_arp31 [2]).
-  repeat split; try (vm_compute; lia); try reflexivity.
-  vm_compute. discriminate.
-Qed.
-Lemma parse_len_only_refuted_panic :
-  exists c s s', wf s /\ wf s' /\ view s = view s' /\ parse c s = Panic /\ is_ok (parse c s') = true.
-Proof.
-  exists cfg0, (of_bytes w_arp31), (of_bytes_cap w_arp31 [2]).
-  repeat split; try (vm_compute; lia); try reflexivity.
-Qed.
+Example parse_arp31_fixed :
+  parse cfg0 (of_bytes_cap w_arp31 [1]) = Err EParseFrame /\ parse cfg0 (of_bytes w_arp31) = Err EParseFrame.
+Proof. split; vm_compute; reflexivity. Qed.
 
-(* 16-byte 802.1Q frame: Parse returns nil, Frame.Payload() panics *)
+(* 16-byte 802.1Q frame: before the repair nil error and Frame.Payload() panicked; now ErrFrameLen *)
 Definition w_vlan16 : bytes := (repeat 0 12 ++ [129;0] ++ [0;1])%list.
-Lemma frame_accessors_safe_refuted :
-  exists c s f, wf s /\ bytes_ok (arr s) /\ parse c s = Ok f /\ frame_payload s f = Panic.
-Proof.
-  exists cfg0, (of_bytes w_vlan16). eexists. split; [|split;[|split]].
-  - vm_compute. lia.
-  - apply bytes_okb_spec. vm_compute. reflexivity.
-  - vm_compute. reflexivity.
-  - vm_compute. reflexivity.
-Qed.
-Example w_vlan16_known : k_vlan_short w_vlan16 = true.
+Example parse_vlan16_fixed : parse cfg0 (of_bytes w_vlan16) = Err EFrameLen.
 Proof. vm_compute. reflexivity. Qed.
